@@ -1,4 +1,4 @@
-import PrimaiteModel.Model.Session
+import PrimaiteModel.Model.SessionHandle
 open Primaite Primaite.Session
 
 def showPower : Power → String
@@ -63,25 +63,33 @@ def parseOp : List String → Option Op
   | "req" :: y :: rest => do some (.req (← y.toNat?) (← parseCmd rest))
   | _ => none
 
-def stepLine (n : Net) : List String → Net × String
+/-- operations on kept connection objects: `take <x> <i>`, `hexec <k> <command…>`, `hdisc <k>` -/
+def parseHOp : List String → Option HOp
+  | ["take", x, i] => do some (.take (← x.toNat?) (← i.toNat?))
+  | "hexec" :: k :: rest => do some (.hexec (← k.toNat?) (← parseCmd rest))
+  | ["hdisc", k] => do some (.hdisc (← k.toNat?))
+  | ws => do some (.base (← parseOp ws))
+
+def stepLine (h : HNet) : List String → HNet × String
   | ["new", cnt, su, sd, rd, mx, lto, rto, hp] =>
     match cnt.toNat?, su.toNat?, sd.toNat?, rd.toNat?, mx.toNat?, lto.toNat?, rto.toNat?, parseBool hp with
     | some cnt, some su, some sd, some rd, some mx, some lto, some rto, some hp =>
       let nd : Node := { startDur := su, shutDur := sd, restartDur := rd, maxRemote := mx, localTimeout := lto, remoteTimeout := rto }
       let n' : Net := { nodes := List.replicate cnt nd, hairpin := hp }
-      (n', "ok | " ++ digest n')
-    | _, _, _, _, _, _, _, _ => (n, "bad-op")
-  | ["noop"] => (n, "success | " ++ digest n)
+      ({ net := n' }, "ok | " ++ digest n')
+    | _, _, _, _, _, _, _, _ => (h, "bad-op")
+  | ["noop"] => (h, "success | " ++ digest h.net)
   | ["blockset", m] =>
     -- the set of closed directions is made equal to the matrix (row = sender) by a run of `setBlock` operations
+    let n := h.net
     let rows := (m.splitOn "/").map String.toList
     let k := n.nodes.length
     let n' := (List.range k).foldl (fun acc x => (List.range k).foldl (fun acc y =>
       (step acc (.setBlock x y (((rows.getD x []).getD y '0') == '1'))).1) acc) n
-    (n', "success | " ++ digest n')
+    ({ h with net := n' }, "success | " ++ digest n')
   | ws =>
-    match parseOp ws with
-    | some op => let (n', o) := step n op; (n', showOut o ++ " | " ++ digest n')
-    | none => (n, "bad-op")
+    match parseHOp ws with
+    | some op => let (h', o) := hstep h op; (h', showOut o ++ " | " ++ digest h'.net)
+    | none => (h, "bad-op")
 
-def main : IO Unit := runDriver ({ nodes := [] } : Net) stepLine
+def main : IO Unit := runDriver ({ net := { nodes := [] } } : HNet) stepLine
